@@ -25,9 +25,12 @@ CONSTANTS Threads,      \* submitting threads
           N,            \* queue entries (power of two)
           W,            \* counter modulus (multiple of N, > N)
           Start,        \* initial value of head and tail
-          Dev           \* deviations: "LockedCheckOffByOne" (the code before the fix)
+          Dev           \* deviations: "LockedCheckOffByOne" (the code before the fix),
+                        \* "StaleTailRecheck" (the locked check compares the fresh head
+                        \* with the tail loaded *before* the lock was taken)
 
-Deviations == {"LockedCheckOffByOne"}
+Deviations == {"LockedCheckOffByOne", "StaleTailRecheck"}
+Stale == "StaleTailRecheck" \in Dev
 
 VARIABLES head, tail, slot, lockHolder, pc, h, t, k, accepted, consumed, rejected
 
@@ -63,7 +66,8 @@ LoadTail1(th) ==
        THEN /\ rejected' = rejected \cup {Payload(th, k[th])}
             /\ pc' = NextAdd(th, pc) /\ k' = [k EXCEPT ![th] = @ + 1]
        ELSE /\ pc' = [pc EXCEPT ![th] = "lock"] /\ UNCHANGED <<rejected, k>>
-    /\ UNCHANGED <<head, tail, slot, lockHolder, h, t, accepted, consumed>>
+    /\ t' = IF Stale THEN [t EXCEPT ![th] = tail] ELSE t     \* remembered only by the deviation
+    /\ UNCHANGED <<head, tail, slot, lockHolder, h, accepted, consumed>>
 
 Lock(th) ==
     /\ pc[th] = "lock" /\ lockHolder = NoThread
@@ -83,7 +87,7 @@ LockedFull(d) == IF "LockedCheckOffByOne" \in Dev THEN d > N ELSE d >= N
 LoadTail2(th) ==
     /\ pc[th] = "t2"
     /\ t' = [t EXCEPT ![th] = tail]
-    /\ IF LockedFull(Dist(h[th], tail))
+    /\ IF LockedFull(Dist(h[th], IF Stale THEN t[th] ELSE tail))
        THEN /\ rejected' = rejected \cup {Payload(th, k[th])}
             /\ lockHolder' = NoThread
             /\ pc' = NextAdd(th, pc) /\ k' = [k EXCEPT ![th] = @ + 1]
